@@ -10,7 +10,6 @@ import (
 	"strings"
 	"sync"
 	"sync/atomic"
-	"testing"
 
 	"verif/harness/core"
 )
@@ -82,6 +81,7 @@ func (n *node) history() []Op {
 
 // Config bounds an exploration.
 type Config struct {
+	Name      string // part name (recorded in replay artefacts)
 	MaxDepth  int
 	MaxStates int // 0 = unbounded
 	Workers   int // 0 = min(NumCPU, 8)
@@ -108,18 +108,29 @@ func Explore(c *core.C, sc Scenario, cfg Config) Stats {
 		root *World
 	}
 	workers := make([]*wctx, nw)
+	pool := workerPool(c, sc.Chains(), nw)
 	var wg sync.WaitGroup
 	for i := range workers {
 		wg.Add(1)
 		go func(i int) {
 			defer wg.Done()
-			wk := NewWorker(c.T, sc.Chains())
+			wk := pool[i]
 			root := sc.Init(wk)
 			root.Flatten()
 			workers[i] = &wctx{wk: wk, root: root}
 		}(i)
 	}
 	wg.Wait()
+	// self-check of the snapshot shortcut: the app hash computed from bare IAVL trees + commit info
+	// must equal what a complete rootmulti.Store commits for the same content
+	for ci := range workers[0].root.CS {
+		for _, bl := range workers[0].root.CS[ci].Blocks {
+			if bl.After != nil && string(bl.After.RootmultiAppHash()) != string(bl.After.AppHash) {
+				c.Broken("snapshot app hash differs from rootmulti commit hash (chain %d height %d)", ci, bl.Height)
+				return Stats{}
+			}
+		}
+	}
 	rootKey := workers[0].root.Key(sc.Stores(), sc.Filter)
 	for i, w := range workers {
 		if k := w.root.Key(sc.Stores(), sc.Filter); k != rootKey {
@@ -132,7 +143,7 @@ func Explore(c *core.C, sc Scenario, cfg Config) Stats {
 	var st Stats
 	st.States = 1
 	if f := sc.Invariant(workers[0].root); f != nil {
-		report(c, f, nil)
+		report(c, cfg.Name, f, nil)
 	}
 	frontier := []*node{{key: rootKey}}
 	var stop atomic.Bool
@@ -174,7 +185,7 @@ func Explore(c *core.C, sc Scenario, cfg Config) Stats {
 								c.Hist("error_classes", op.K+":"+r.String())
 							}
 							if f := sc.Step(w, op, r, child); f != nil {
-								report(c, f, append(append([]Op{}, hist...), op))
+								report(c, cfg.Name, f, append(append([]Op{}, hist...), op))
 							}
 							k := child.Key(sc.Stores(), sc.Filter)
 							if dup := visited.LoadOrStore(k); dup {
@@ -182,7 +193,7 @@ func Explore(c *core.C, sc Scenario, cfg Config) Stats {
 							}
 							atomic.AddInt64(&st.States, 1)
 							if f := sc.Invariant(child); f != nil {
-								report(c, f, append(append([]Op{}, hist...), op))
+								report(c, cfg.Name, f, append(append([]Op{}, hist...), op))
 							}
 							local = append(local, &node{parent: n, op: op, depth: n.depth + 1, key: k})
 						}
@@ -216,16 +227,13 @@ func Explore(c *core.C, sc Scenario, cfg Config) Stats {
 		// deterministic order of the next level (alphabet order within parent order)
 		sort.SliceStable(next, func(i, j int) bool { return string(next[i].key[:]) < string(next[j].key[:]) })
 		frontier = next
-		if depth < 3 || len(next) > 0 {
-			c.Set(fmt.Sprintf("level_%02d_new_states", depth+1), len(next))
-		}
 	}
 	st.Complete = len(frontier) == 0 && !stop.Load()
 	return st
 }
 
-func report(c *core.C, f *Fail, hist []Op) {
-	c.Violation(f.Key, f.Text, map[string]any{"history": hist, "history_text": opsText(hist)})
+func report(c *core.C, part string, f *Fail, hist []Op) {
+	c.Violation(f.Key, f.Text, map[string]any{"part": part, "history": hist, "history_text": opsText(hist)})
 }
 
 func opsText(h []Op) string {
@@ -234,6 +242,62 @@ func opsText(h []Op) string {
 		s[i] = o.String()
 	}
 	return strings.Join(s, " ; ")
+}
+
+// Part is one exploration of a multi-part check.
+type Part struct {
+	Name  string
+	Sc    Scenario
+	Cfg   Config
+	Share float64 // share of the remaining time budget this part may use (0 = all)
+}
+
+// RunParts explores every part in turn and records aggregated coverage plus a per-part summary.
+func RunParts(c *core.C, parts []Part, sample [][]Op) {
+	if ReplayParts(c, parts) {
+		return
+	}
+	var tot Stats
+	var summaries []map[string]any
+	allDone := true
+	maxDepth := 0
+	for i, p := range parts {
+		share := p.Share
+		if share == 0 {
+			share = 1.0 / float64(len(parts)-i)
+		}
+		c.SubBudget(share)
+		before := c.Capped()
+		p.Cfg.Name = p.Name
+		st := Explore(c, p.Sc, p.Cfg)
+		c.SubBudget(0)
+		tot.States += st.States
+		tot.Transitions += st.Transitions
+		tot.Replayed += st.Replayed
+		done := st.Complete || st.DepthDone >= p.Cfg.MaxDepth
+		if !done {
+			allDone = false
+		}
+		if p.Cfg.MaxDepth > maxDepth {
+			maxDepth = p.Cfg.MaxDepth
+		}
+		summaries = append(summaries, map[string]any{"part": p.Name, "states": st.States, "transitions": st.Transitions,
+			"max_depth": p.Cfg.MaxDepth, "depth_completed": st.DepthDone, "state_space_closed": st.Complete, "hit_time_cap": !before && c.Capped() && !done})
+		fmt.Printf("part %s: states=%d transitions=%d depth_completed=%d/%d closed=%v\n", p.Name, st.States, st.Transitions, st.DepthDone, p.Cfg.MaxDepth, st.Complete)
+		if c.Violations() > 5 {
+			break
+		}
+	}
+	c.Set("states", int(tot.States))
+	c.Set("transitions", int(tot.Transitions))
+	c.Set("traces_validated_against_impl", int(tot.Replayed))
+	c.Set("traces_note", "every transition executes the real ibc-go message handlers; in addition every expanded state is re-materialised from the root world by replaying its shortest history (on any worker's application instances) and must reach the byte-identical state key")
+	c.Set("parts", summaries)
+	c.Set("max_depth", maxDepth)
+	c.Set("exhaustive", allDone)
+	for _, h := range sample {
+		c.Sample(opsText(h))
+	}
 }
 
 // Record writes the standard model-checking coverage keys.
@@ -251,19 +315,31 @@ func Record(c *core.C, st Stats, cfg Config, sample [][]Op) {
 	}
 }
 
-// ReplayHistory materialises a recorded history on a fresh worker, evaluating all oracles.
-func ReplayHistory(c *core.C, t *testing.T, sc Scenario) bool {
+// ReplayParts re-executes a recorded violation (./run <id> --replay <file>) on the part that found it.
+// It returns true when the run was a replay.
+func ReplayParts(c *core.C, parts []Part) bool {
 	if c.Replay == "" {
 		return false
 	}
 	var art struct {
-		History []Op `json:"history"`
+		Part    string `json:"part"`
+		History []Op   `json:"history"`
 	}
 	if err := c.LoadReplay(&art); err != nil {
 		c.Broken("cannot load replay: %v", err)
 		return true
 	}
-	wk := NewWorker(t, sc.Chains())
+	var sc Scenario
+	for _, p := range parts {
+		if p.Name == art.Part {
+			sc = p.Sc
+		}
+	}
+	if sc == nil {
+		c.Broken("replay names unknown part %q", art.Part)
+		return true
+	}
+	wk := NewWorker(c.T, sc.Chains())
 	w := sc.Init(wk)
 	w.Flatten()
 	for i, op := range art.History {
@@ -272,10 +348,10 @@ func ReplayHistory(c *core.C, t *testing.T, sc Scenario) bool {
 		r := sc.Apply(w, op)
 		fmt.Printf("replay step %d: %s -> %s\n", i+1, op, r)
 		if f := sc.Step(pre, op, r, w); f != nil {
-			report(c, f, art.History[:i+1])
+			report(c, art.Part, f, art.History[:i+1])
 		}
 		if f := sc.Invariant(w); f != nil {
-			report(c, f, art.History[:i+1])
+			report(c, art.Part, f, art.History[:i+1])
 		}
 	}
 	bz, _ := json.Marshal(art.History)
@@ -311,4 +387,32 @@ func (v *visitedSet) LoadOrStore(k [32]byte) bool {
 	}
 	sh.mu.Unlock()
 	return dup
+}
+
+var (
+	poolMu sync.Mutex
+	pools  = map[int][]*Worker{}
+)
+
+// workerPool returns n workers with the given number of chains, creating the missing ones
+// (application instances are expensive to build and are reused by every part of a check).
+func workerPool(c *core.C, chains, n int) []*Worker {
+	poolMu.Lock()
+	defer poolMu.Unlock()
+	have := pools[chains]
+	var wg sync.WaitGroup
+	var mu sync.Mutex
+	for i := len(have); i < n; i++ {
+		wg.Add(1)
+		go func() {
+			defer wg.Done()
+			wk := NewWorker(c.T, chains)
+			mu.Lock()
+			have = append(have, wk)
+			mu.Unlock()
+		}()
+	}
+	wg.Wait()
+	pools[chains] = have
+	return have[:n]
 }
